@@ -94,7 +94,8 @@ CONSTANTS AsImplemented,  \* BOOLEAN: model the known deviations of the library
           ChunkStride,    \* every ChunkStride-th chunk is enumerated (1 = all 65 536 patterns)
           Walk,           \* BOOLEAN: boundary mantissas also include every single-bit pattern
           Kinds,          \* subset of the six kinds to enumerate
-          Pow2            \* BOOLEAN: also the dimension PowerOfTwoNeighbours (below, above JobSet)
+          Pow2,           \* BOOLEAN: also the dimension PowerOfTwoNeighbours (below, above JobSet)
+          Pos             \* BOOLEAN: also the dimension Positions (below, above JobSet)
 
 HalfChunks == {c \in 0..(65536 \div ChunkSize - 1) : c % ChunkStride = 0}
 
@@ -342,17 +343,52 @@ Pow2Pattern(k, g) ==
          [] OTHER -> Mk(k, s, 0, [i \in 1..w |-> IF i > j THEN 1 ELSE 0])
 IsPow2Job(job) == job.p < 0           \* p = -(number of the job)
 
+\* Positions (Pos = TRUE).  The property speaks of every literal of the text, wherever it stands: a
+\* literal is not only the initialiser of a scalar global but also an element of a vector / array /
+\* struct constant (possibly nested), an operand of an instruction, an argument of a call, a
+\* returned value, an operand of a metadata node.  Parsers and printers treat these places
+\* differently (aggregate constants are built, folded and printed by other code than scalars), so
+\* the place is a dimension of its own: one job per kind (p = PosP) whose patterns are the class
+\* representatives  sign x {zero, smallest subnormal, 1.0, infinity, canonical quiet NaN}  and whose
+\* vectors place the canonical spelling of each pattern at every position of Positions, with the
+\* other leaves of the enclosing aggregate (Siblings) holding the same literal, +0 or 1.0 of the
+\* kind.  The required outcome is the one law of the property: the literal printed AT THAT PLACE
+\* denotes the bits of the literal written there (FloatLitTrace.tla judges the recording).
+PosP == 100000
+IsPosJob(job) == job.p = PosP
+Positions == <<"scalar", "vector", "array", "struct", "nested", "operand", "vector-operand",
+               "call-argument", "return", "metadata">>
+Siblings == <<"same", "zero", "one">>
+PosPattern(k, i) ==      \* i in 1..10
+  LET s == (i - 1) \div 5  c == ((i - 1) % 5) + 1
+      ieee(kk) == LET w == ManW(kk) IN
+                  CASE c = 1 -> Mk(kk, s, 0, Zeros(w))
+                    [] c = 2 -> Mk(kk, s, 0, Zeros(w - 1) \o <<1>>)
+                    [] c = 3 -> Mk(kk, s, Bias(kk), Zeros(w))
+                    [] c = 4 -> Mk(kk, s, MaxExp(kk), Zeros(w))
+                    [] c = 5 -> Mk(kk, s, MaxExp(kk), <<1>> \o Zeros(w - 1))
+  IN CASE k = "x86_fp80"  -> (CASE c = 1 -> Mk(k, s, 0, Zeros(64))
+                                [] c = 2 -> Mk(k, s, 0, Zeros(63) \o <<1>>)
+                                [] c = 3 -> Mk(k, s, Bias(k), <<1>> \o Zeros(63))
+                                [] c = 4 -> Mk(k, s, MaxExp(k), <<1>> \o Zeros(63))
+                                [] c = 5 -> Mk(k, s, MaxExp(k), <<1, 1>> \o Zeros(62)))
+       [] k = "ppc_fp128" -> ieee("double") \o Zeros(64)
+       [] OTHER           -> ieee(k)
+PosJobs == IF Pos THEN {[kind |-> k, p |-> PosP] : k \in Kinds} ELSE {}
+
 \* jobs: [kind, p]; half: p = chunk number; ppc_fp128: p = index of the first double; others p = 0;
 \* PowerOfTwoNeighbours: p = -1, -2, ...
-JobSet == UNION {{[kind |-> k, p |-> 0 - c] : c \in 1..Pow2Jobs(k)} : k \in Pow2Kinds} \cup {[kind |-> "half", p |-> c] : c \in (IF "half" \in Kinds THEN HalfChunks ELSE {})}
+JobSet == PosJobs \cup UNION {{[kind |-> k, p |-> 0 - c] : c \in 1..Pow2Jobs(k)} : k \in Pow2Kinds} \cup {[kind |-> "half", p |-> c] : c \in (IF "half" \in Kinds THEN HalfChunks ELSE {})}
           \cup {[kind |-> k, p |-> 0] : k \in Kinds \cap {"float", "double", "fp128", "x86_fp80"}}
           \cup {[kind |-> "ppc_fp128", p |-> i] : i \in (IF "ppc_fp128" \in Kinds THEN 1..84 ELSE {})}
 
-JobLen(job) == IF IsPow2Job(job)
+JobLen(job) == IF IsPosJob(job) THEN 10 ELSE
+               IF IsPow2Job(job)
                THEN LET left == 6 * Pow2Exps(job.kind) - (0 - job.p - 1) * Pow2PerJob IN
                     IF left < Pow2PerJob THEN left ELSE Pow2PerJob
                ELSE CASE job.kind = "half" -> ChunkSize [] job.kind = "ppc_fp128" -> 84 [] OTHER -> BoundaryCount(job.kind)
 PatternAt(job, i) ==
+  IF IsPosJob(job) THEN PosPattern(job.kind, i) ELSE
   IF IsPow2Job(job) THEN Pow2Pattern(job.kind, (0 - job.p - 1) * Pow2PerJob + i) ELSE
   CASE job.kind = "half"      -> Bits(job.p * ChunkSize + i - 1, 16)
     [] job.kind = "x86_fp80"  -> BoundaryX87(i)
@@ -398,6 +434,20 @@ Pow2VectorsOf(kind, b) ==
       full  == IF canon.form = "D" THEN Lit("D", PadLeft(canon.digs, 16)) ELSE canon
   IN <<VecOf(kind, "pow2", full, b)>>
 
+\* Positions: the canonical spelling at every place, with every choice of the sibling leaves; the
+\* harness writes the module text of the place (harness/props/c10/pos.go) and reads the literal
+\* printed at the same place
+FullSpelling(kind, b) == LET canon == HexSpelling(kind, b) IN
+                         IF canon.form = "D" THEN Lit("D", PadLeft(canon.digs, 16)) ELSE canon
+PosVectorsOf(kind, b) ==
+  LET full == FullSpelling(kind, b)
+      sibl(sb) == CASE sb = "same" -> LitText(full)
+                    [] sb = "zero" -> LitText(FullSpelling(kind, PosPattern(kind, 1)))
+                    [] sb = "one"  -> LitText(FullSpelling(kind, PosPattern(kind, 3)))
+  IN [j \in 1..(Len(Positions) * Len(Siblings)) |->
+        LET po == Positions[((j - 1) \div Len(Siblings)) + 1]  sb == Siblings[((j - 1) % Len(Siblings)) + 1] IN
+        VecOf(kind, "pos", full, b) @@ [pos |-> po, sib |-> sb, sibl |-> sibl(sb)]]
+
 RECURSIVE Flatten(_, _)
 Flatten(ss, k) == IF k = 0 THEN <<>> ELSE Flatten(ss, k - 1) \o ss[k]
 
@@ -406,9 +456,10 @@ Flatten(ss, k) == IF k = 0 THEN <<>> ELSE Flatten(ss, k - 1) \o ss[k]
 InexactStride == 256
 VectorsOfJob(job) ==
   LET vs == [i \in 1..JobLen(job) |->
-               LET all == IF IsPow2Job(job) THEN Pow2VectorsOf(job.kind, PatternAt(job, i))
+               LET all == IF IsPosJob(job) THEN PosVectorsOf(job.kind, PatternAt(job, i)) ELSE
+                          IF IsPow2Job(job) THEN Pow2VectorsOf(job.kind, PatternAt(job, i))
                           ELSE VectorsOf(job.kind, PatternAt(job, i)) IN
-               IF ~IsPow2Job(job) /\ job.kind = "half" /\ i % InexactStride # 1 THEN SubSeq(all, 1, Len(all) - 2) ELSE all]
+               IF ~IsPosJob(job) /\ ~IsPow2Job(job) /\ job.kind = "half" /\ i % InexactStride # 1 THEN SubSeq(all, 1, Len(all) - 2) ELSE all]
   IN Flatten(vs, Len(vs))
 
 JobName(job) == job.kind \o "_" \o ToString(job.p)
